@@ -81,6 +81,11 @@ pub fn build(rw: &mut Rng, rf: &mut Rng, o: &BuildOpts, st: &mut Stats) -> Built
         let mut bytes = rf.bytes(n);
         if storage && n >= 4 && rf.bool() {
             bytes[..4].copy_from_slice(b"DLT\x01");
+        } else if rf.chance(1, 6) {
+            // starts with a byte-string literal of the crate's source
+            let lit = crate::dict::blob(rf);
+            let k = lit.len().min(n);
+            bytes[..k].copy_from_slice(&lit[..k]);
         }
         st.inc("medium_soup");
         let m = Medium { bytes, aligned: false, notes: vec!["arbitrary bytes".into()], ..Default::default() };
